@@ -6,8 +6,8 @@ from ..riverlike import RealScenario, gen_real_cfg
 from ..probes import InjectedFault
 from ..core import jsonable
 
-SHARDS = {"quick": 1, "thorough": 16}
-N_CFG = {"quick": 1500, "thorough": 6000}     # per shard
+SHARDS = {"quick": 3, "thorough": 16}
+N_CFG = {"quick": 500, "thorough": 6000}     # per shard
 
 
 def check_identity(run, sc, where, replay):
